@@ -20,6 +20,11 @@ class ValName(SymVal):
         n = other.name if isinstance(other, ValName) else other
         if op == 'Eq': return self.name == n
         if op == 'NotEq': return self.name != n
+        # numeric order of the value enums (C07.<L>.encoding: F least, T greatest; N below B where both exist)
+        rank = {'F': 0, 'N': 1, 'B': 2, 'T': 3}
+        if self.name in rank and n in rank:
+            a, b = (rank[n], rank[self.name]) if reflected else (rank[self.name], rank[n])
+            return dict(Lt=a < b, LtE=a <= b, Gt=a > b, GtE=a >= b)[op]
         raise Outside('ordering of value names')
     def sym_truth(self, it): return True
 
